@@ -465,6 +465,26 @@ def install(module):
     return len(codes)
 
 
+_CODES = {}
+
+
+def install_dormant(module):
+    """Like install(), but the INSTRUCTION events stay switched off until tracing(module, True): for a check in
+    which only a few runs are threaded and the rest must not pay for the callback.  Switch only while no
+    logical thread exists (before spawn / after run() has joined them)."""
+    n = install(module)
+    _CODES[module.__file__] = _collect_code(module, frozenset([module.__file__]))
+    tracing(module, False)
+    return n
+
+
+def tracing(module, on):
+    mon = sys.monitoring
+    ev = mon.events.INSTRUCTION if on else 0
+    for co in _CODES[module.__file__]:
+        mon.set_local_events(_TOOL, co, ev)
+
+
 def _on_instruction(code, offset):
     s = _ACTIVE
     if s is not None:
